@@ -161,11 +161,13 @@ def units(tier):
 UNARY_LAYOUT = ("LAYOUT: LayoutItem | LAYOUT LayoutItem | EMPTY;\nLayoutItem: WS | Comment;\n", "WS: /\\s+/;\nComment: /\\/\\/.*/;\n")
 
 
-def unary_grammar(marks, layout):
-    """Optional unary sign: an EMPTY production that can be marked dynamic; optional LAYOUT rule."""
+def unary_grammar(marks, layout, assoc=True):
+    """Optional unary sign: an EMPTY production that can be marked dynamic; optional LAYOUT rule.
+    Without `assoc` the shift/reduce conflict of the operator is left to the prefer-shifts default."""
     def m(x):
         return " {dynamic}" if x in marks else ""
-    return ("E: E op0 E {left%s} | Neg n;\nNeg: minus%s | EMPTY%s;\n" % (", dynamic" if "p" in marks else "", m("m"), m("e"))
+    meta = (["left"] if assoc else []) + (["dynamic"] if "p" in marks else [])
+    return ("E: E op0 E%s | Neg n;\nNeg: minus%s | EMPTY%s;\n" % ((" {%s}" % ", ".join(meta)) if meta else "", m("m"), m("e"))
             + (UNARY_LAYOUT[0] if layout else "") + "terminals\nn: \"n\";\nop0: \"+\"%s;\nminus: \"-\";\n" % m("t")
             + (UNARY_LAYOUT[1] if layout else ""))
 
@@ -177,25 +179,32 @@ def run_unary(u, res):
     for n in range(1, u["m"] + 1):
         for c in itertools.product(atoms, repeat=n):
             exprs.append("+".join(c))
-    for layout in (False, True):
+    for layout, assoc in ((False, True), (True, True), (False, False)):
         seps = ["", " "] + (["  // c\n "] if layout else [])
         for r in range(5):
             for marks in itertools.combinations(["p", "m", "e", "t"], r):
                 marks = set(marks)
-                gtxt = unary_grammar(marks, layout)
+                gtxt = unary_grammar(marks, layout, assoc)
                 g = Grammar.from_string(gtxt)
                 st["grammars"] += 1
                 for fname, decide in (("accept-all", accept_all),):
                     for kind in ("LR", "GLR"):
                         rec = Recorder(decide)
+                        # default construction arguments on both sides
                         try:
-                            if kind == "LR":
-                                p = Parser(g, build_tree=True, dynamic_filter=rec)
-                                p0 = Parser(g, build_tree=True)
-                            else:
-                                p = GLRParser(g, dynamic_filter=rec)
-                                p0 = GLRParser(g)
+                            p0 = Parser(g, build_tree=True) if kind == "LR" else GLRParser(g)
                         except (SRConflicts, RRConflicts):
+                            st["lr_conflict_errors"] += 1
+                            continue
+                        try:
+                            p = (Parser(g, build_tree=True, dynamic_filter=rec) if kind == "LR"
+                                 else GLRParser(g, dynamic_filter=rec))
+                        except (SRConflicts, RRConflicts) as ex:
+                            if not marks:
+                                res["violations"].append({
+                                    "kind": "construction-fails-with-a-filter-where-it-succeeds-without",
+                                    "case": {"grammar": gtxt, "filter": fname, "parser": kind},
+                                    "observed": type(ex).__name__})
                             st["lr_conflict_errors"] += 1
                             continue
                         for e in exprs:
